@@ -555,8 +555,67 @@ func (p *Pkg) defaultArmExpr(stmts []ast.Stmt, errResult types.Object) (ast.Expr
 	return nil, "default arm is neither a return nor an assignment of the error result"
 }
 
+// typedErrOf recognises &<T>{Abv: x} of a package type, directly or through a
+// one-line constructor `func newT(abv string) error { return &T{Abv: abv} }`;
+// it returns the type's name and the expression given for Abv at the call site.
+func (p *Pkg) typedErrOf(e ast.Expr) (string, ast.Expr, bool) {
+	if call, ok := e.(*ast.CallExpr); ok && len(call.Args) == 1 {
+		if fn := calleeOf(p.Info, call); fn != nil && fn.Pkg() == p.P.Types {
+			if fd := p.FuncObj[fn]; fd != nil && fd.Recv == nil && fd.Body != nil && len(fd.Body.List) == 1 {
+				if rs, ok := fd.Body.List[0].(*ast.ReturnStmt); ok && len(rs.Results) == 1 {
+					if params := paramObjs(p.Info, fd); len(params) == 1 {
+						if tn, inner, ok := p.typedErrOf(rs.Results[0]); ok && inner != nil && identObj(p.Info, inner) == params[0] {
+							return tn, call.Args[0], true
+						}
+					}
+				}
+			}
+		}
+		return "", nil, false
+	}
+	u, ok := e.(*ast.UnaryExpr)
+	if !ok || u.Op != token.AND {
+		return "", nil, false
+	}
+	cl, ok := u.X.(*ast.CompositeLit)
+	if !ok {
+		return "", nil, false
+	}
+	named, ok := p.Info.Types[cl].Type.(*types.Named)
+	if !ok || named.Obj().Pkg() != p.P.Types {
+		return "", nil, false
+	}
+	var abv ast.Expr
+	if len(cl.Elts) == 1 {
+		abv = cl.Elts[0]
+		if kv, ok := abv.(*ast.KeyValueExpr); ok {
+			abv = kv.Value
+		}
+	}
+	return named.Obj().Name(), abv, true
+}
+
 // isTypedErrPtr checks e == &<TypeName>{Abv: <obj or literal>}.
 func (p *Pkg) isTypedErrPtr(e ast.Expr, typeName string, abv types.Object) (bool, string) {
+	// a constructor of the package: `func newErr(abv string) error { return &T{Abv: abv} }`
+	if call, ok := e.(*ast.CallExpr); ok && len(call.Args) == 1 {
+		if fn := calleeOf(p.Info, call); fn != nil && fn.Pkg() == p.P.Types {
+			if fd := p.FuncObj[fn]; fd != nil && fd.Recv == nil && fd.Body != nil && len(fd.Body.List) == 1 {
+				if rs, ok := fd.Body.List[0].(*ast.ReturnStmt); ok && len(rs.Results) == 1 {
+					if params := paramObjs(p.Info, fd); len(params) == 1 {
+						if abv != nil && identObj(p.Info, call.Args[0]) != abv {
+							return false, typeName + " does not carry the abbreviation parameter"
+						}
+						ok, why := p.isTypedErrPtr(rs.Results[0], typeName, params[0])
+						if ok {
+							why = fn.Name() + "(" + types.ExprString(call.Args[0]) + ") = " + why
+						}
+						return ok, why
+					}
+				}
+			}
+		}
+	}
 	u, ok := e.(*ast.UnaryExpr)
 	if !ok || u.Op != token.AND {
 		return false, "the error is not built with & (the value type also implements error, so errors.As on the pointer type would stop matching)"
@@ -1158,10 +1217,11 @@ func (w *World) ruleWriters(p *Pkg, out *[]Obligation) {
 			continue
 		}
 		nfuncs++
-		// writers that matter: functions on a path of the documented API other
-		// than through Set (Set's own stores are the Set model's business; an
-		// exported mutator added next to the API has its own contract)
-		if fd != setFn && p.API().NotSet[fd] {
+		// writers that matter: functions on a path of the documented API that
+		// does not go through Set (Set's own stores, and those of the helpers only
+		// Set calls, are the Set model's business; an exported mutator added next
+		// to the API has its own contract)
+		if fd != setFn && p.API().AroundSet[fd] {
 			for _, st := range p.fieldStores(fd.Body) {
 				bad++
 				*out = append(*out, Obligation{Rule: "R07.writers", Instance: p.Key + "." + n, Pos: p.pos(st), OK: false, NonTrivial: true,
@@ -1376,11 +1436,18 @@ func (p *Pkg) getSemanticFill(gm *GetModel) {
 	for _, m := range sm.Metrics {
 		ga := gm.ByLabel[m.Label]
 		structuralOK := ga != nil && ga.TagOK && len(ga.Table) > 0
+		inst := fmt.Sprintf("%s.Get[%s]", p.Key, m.Label)
+		for _, o := range gm.Obls {
+			// a part of the arm the structural model could not read (an inner
+			// default with statements, ...): the arm is tabulated instead
+			if o.Instance == inst && !o.OK && (o.Rule == "R07.decode" || o.Rule == "R07.names") && strings.Contains(o.Detail, "undecided") {
+				structuralOK = false
+			}
+		}
 		if structuralOK || !m.encOK {
 			continue
 		}
 		tbl, deps, err := p.getSemantic(gm, m)
-		inst := fmt.Sprintf("%s.Get[%s]", p.Key, m.Label)
 		if err != nil {
 			continue // the structural obligations already explain the failure
 		}
